@@ -430,6 +430,10 @@ func parseBlock(c *casketfile.Dispenser, u *staticUpstream, hasSrv bool) error {
 		if err != nil {
 			return err
 		}
+		if dur <= 0 {
+			// the health check worker runs on a ticker of this interval
+			return c.Errf("health_check_interval must be greater than 0, got '%s'", interval)
+		}
 		u.HealthCheck.Interval = dur
 	case "health_check_timeout":
 		var interval string
